@@ -136,8 +136,10 @@ type Scenario struct {
 	MaxPoints int
 	// Case describes the scenario for replay (JSON-able).
 	Case any
-	// RaceClass classifies a race report for the violation triple.
+	// Site is the library entry point named in deadlock / panic / oracle violations.
 	Site string
+	// Whole: the scenario is owned entirely by the calling shard (the caller shards by scenario).
+	Whole bool
 }
 
 // ReplayCase is what a schedule violation records.
@@ -196,7 +198,7 @@ func Explore(c *core.Ctx, rl *RaceLog, sc Scenario) {
 				c.NontrivialHash(core.Hash(sc.Name, fmt.Sprint(x.Choices())))
 				c.Sample(sc.Name, map[string]any{"scenario": sc.Case, "bound": b, "schedule": x.Trace(), "outcome": outcome})
 			}
-		}, vsched.Options{Bound: b, MaxPoints: sc.MaxPoints, Shard: c.Shard, NShards: c.NShards, Stop: c.Expired}, &st)
+		}, shardOpts(c, sc, b), &st)
 		c.State()
 		if st.Truncated {
 			c.Cap("%s: bound %s not completed (deadline) after %d executions", sc.Name, boundName(b), st.Execs)
@@ -204,6 +206,14 @@ func Explore(c *core.Ctx, rl *RaceLog, sc Scenario) {
 		}
 		c.Bound(scope, map[string]any{"executions_this_shard": st.Execs, "max_points": st.MaxPoints, "threads": st.MaxThreads})
 	}
+}
+
+func shardOpts(c *core.Ctx, sc Scenario, b int) vsched.Options {
+	o := vsched.Options{Bound: b, MaxPoints: sc.MaxPoints, Shard: c.Shard, NShards: c.NShards, Stop: c.Expired}
+	if sc.Whole {
+		o.Shard, o.NShards = 0, 1
+	}
+	return o
 }
 
 func boundName(b int) string {
